@@ -57,6 +57,25 @@ def moves_in(node):
     return out
 
 
+def switch_discr_place(body, bi):
+    """The place whose discriminant the switch at the end of block bi tests (or None)."""
+    t = body.term(bi)
+    if not t or t["k"] != "switch" or t["d"].get("k") not in ("move", "copy") or t["d"]["pl"]["p"]:
+        return None
+    l = t["d"]["pl"]["l"]
+    ds = body.defs.get(l, [])
+    if len(ds) != 1:
+        return None
+    dbi, dsi = ds[0]
+    bb = body.blocks[dbi]
+    if dsi >= len(bb["stmts"]):
+        return None
+    st = bb["stmts"][dsi]
+    if st["k"] == "assign" and st["rv"]["k"] == "discr":
+        return st["rv"]["pl"]
+    return None
+
+
 def enum_variant_has_v(facts, ty, variant):
     base = strip_generics(ty.split("<")[0]) if "<" in ty else ty
     if base.endswith("option::Option"):
@@ -91,10 +110,12 @@ def enum_variant_has_v(facts, ty, variant):
     return True
 
 
-def live_drops(fl, body):
-    """Live implicit drops of V-bearing locals: [(bi, term, local, description of the path)]."""
+def live_drops(fl, body, pred=None):
+    """Live implicit drops of V-bearing locals (or of locals whose type satisfies `pred`):
+    [(bi, term, local, description of the path)]."""
     facts = fl.facts
-    vlocals = {i for i, l in enumerate(body.locals) if v_bearing(l["ty"])}
+    pred = pred or v_bearing
+    vlocals = {i for i, l in enumerate(body.locals) if pred(l["ty"])}
     if not vlocals:
         return []
 
@@ -120,7 +141,22 @@ def live_drops(fl, body):
             return s.with_user(frozenset(moved))
         return None
 
-    at, entry = dataflow(body, init_user=frozenset(), node_fn=node_fn, max_states=3000, track_lits=False)
+    def edge_fn(s, bi, tgt, atom, pol):
+        # a match on a tracked local that selects a variant without a V inside: from here on the
+        # local owns no value (e.g. the Err side of a Result<Item<V>, RecvError>, None, Item::Delete)
+        if atom is None or atom[0] != "variant" or not pol:
+            return None
+        pl = switch_discr_place(body, bi)
+        if pl is None or pl["p"] or pl["l"] not in vlocals:
+            return None
+        if pred is v_bearing and not enum_variant_has_v(facts, body.locals[pl["l"]]["ty"], atom[2]):
+            moved = set(s.user or ())
+            if (pl["l"], ()) not in moved:
+                moved.add((pl["l"], ()))
+                return s.with_user(frozenset(moved))
+        return None
+
+    at, entry = dataflow(body, init_user=frozenset(), node_fn=node_fn, edge_fn=edge_fn, max_states=3000, track_lits=False)
     out = []
     for bi in body.live_blocks():
         t = body.term(bi)
@@ -178,18 +214,12 @@ DISAGREE = ("reachable only when an admitted (not yet charged) New item finds it
 AUDITED_DROPS = [
     (r"^cache::Cache::wait(::\{closure#0\})?$", r"^(e|tmp)$", r"SendError<cache::Item<V>>", NO_VALUE + " (Wait; its token releases in Drop)"),
     (r"^cache::Cache::try_remove(::\{closure#0\})?$", r"^tmp$", r"^std::result::Result<\(\), .*SendError<cache::Item<V>>>$", NO_VALUE + " (Delete)"),
-    (r"^cache::Cache::try_remove(::\{closure#0\})?$", r"^prev$", r"^std::option::Option<store::StoreItem<V>>$", REMNANT),
     (r"^cache::Cache::try_insert_in(::\{closure#0\})?$", r"^val$", r"^V$", "closed cache: the value is dropped and insert returns false (never accepted)"),
     (r"^cache::Cache::try_insert_in::\{closure#0\}$", r"^item$", r"^cache::Item<V>$", INSERT_FALSE),
     (r"^cache::Cache::try_insert_in::\{closure#0\}(::\{closure#[01]\})?$", r"^tmp$", r"SendError<cache::Item<V>>$|^std::option::Option<\(u64, cache::Item<V>\)>$", INSERT_FALSE),
     (r"^cache::CacheProcessor::spawn::\{closure#0\}$", r"^tmp$", r"^std::result::Result<cache::Item<V>, .*RecvError>$", "final drain on the stop arm: close() drops what is still buffered (documented exception; Wait tokens release in Drop)"),
     (r"^cache::CacheProcessor::handle_close_event$", r"^tmp$", r"^std::result::Result<cache::Item<V>, .*RecvError>$", "final drain on the stop arm: close() drops what is still buffered (documented exception)"),
-    (r"^cache::CacheCleaner::clean(::\{closure#0\})?$", r"^(tmp|item)$", r"^std::result::Result<cache::Item<V>, .*RecvError>$", REMNANT + "; Ok items are moved into the cleaner's handle_item"),
     (r"^cache::Cache::try_update$", r"^v$", r"^V$", "only_update on an absent / vetoed / conflicting key: insert_if_present returns false, the value was never accepted"),
-    (r"^cache::CacheProcessor::handle_item$", r"^sitem$", r"^std::option::Option<store::StoreItem<V>>$", REMNANT),
-    (r"^cache::CacheProcessor::handle_item$", r"^tmp$", r"^std::option::Option<store::StoreItem<V>>$", REMNANT),
-    (r"^cache::CacheProcessor::handle_item$", r"^item$", r"^cache::Item<V>$", "the matched item: its value was moved out in the New arm, the other variants carry no value"),
-    (r"^cache::CacheCleaner::handle_item$", r"^item$", r"^cache::Item<V>$", "the matched item: New moves its value to on_evict, the other variants carry no value"),
     (r"^store::ShardedMap::try_insert$", r"^tmp$", r"^std::option::Option<store::StoreItem<V>>$", "the entry overwritten by shard.insert: " + DISAGREE),
     (r"^store::ShardedMap::try_insert$", r"^val$", r"^V$", "the early returns (conflict mismatch / validator veto on an existing entry): " + DISAGREE),
     (r"^store::ShardedMap::try_update$", r"^val$", r"^V$", "every Ok return moves `val` into the UpdateResult; the scope-end drop is live only on the error path of the infallible em.try_update (R06.5)"),
@@ -209,6 +239,7 @@ def check_live_drops(rep, fl, rule="R08.1"):
     other = "r#async" if fl.name == "sync" else "::sync::"
     n = 0
     n_bodies = 0
+    used = set()
     for b in facts.bodies:
         if not user_code(b) or other in b.spath:
             continue
@@ -225,9 +256,10 @@ def check_live_drops(rep, fl, rule="R08.1"):
             why = None
             nfn = neutral_fn(b.spath)
             nty = neutral_ty(ty)
-            for fre, nre, tre, reason in AUDITED_DROPS:
+            for i_, (fre, nre, tre, reason) in enumerate(AUDITED_DROPS):
                 if re.search(fre, nfn) and re.search(nre, name) and re.search(tre, nty):
                     why = reason
+                    used.add(i_)
                     break
             site = "drop %s: %s" % (name, neutral_ty(ty))
             if why:
@@ -235,6 +267,9 @@ def check_live_drops(rep, fl, rule="R08.1"):
             else:
                 rep.bad(rule, fl, b, site, "a value-bearing `%s` (%s) can be dropped here without reaching a callback, the store or a documented `insert -> false` path (e.g. when %s)" % (
                     name, ty, "moved so far: %s" % sorted(states[0].user or ())), loc=t["sp"])
+    unused = [i for i in range(len(AUDITED_DROPS)) if i not in used]
+    if unused:
+        rep.note("R08.1 %s: audited entries that matched no live drop: %s" % (fl.cfg, ["%s/%s" % (AUDITED_DROPS[i][0], AUDITED_DROPS[i][1]) for i in unused]))
     if n_bodies < 100:
         rep.missing(rule, fl, "only %d bodies analysed for live drops" % n_bodies)
     rep.note("R08.1 %s: %d bodies analysed, %d live value-bearing drops, all audited or reported" % (fl.cfg, n_bodies, n))
@@ -350,7 +385,7 @@ def check_clear_drops(rep, fl, rule="R08.4"):
               "entries are bulk-dropped in %s" % sorted(sites))
     callers = {strip_generics(b.raw["root"]) for b in facts.bodies if calls_to(b, SM + "::clear")}
     callers = {c for c in callers if ("r#async" if fl.name == "sync" else "::sync::") not in c}
-    rep.check(callers == {fl.cache + "::clear"}, rule, fl, SM + "::clear", "callers", "ShardedMap::clear is reached from Cache::clear only (close() goes through clear())", "ShardedMap::clear is called from %s" % sorted(callers))
+    rep.check(callers == {fl.processor + "::handle_clear_event"}, rule, fl, SM + "::clear", "callers", "ShardedMap::clear is reached only from the processor's clear handler, i.e. from clear() requests (close() goes through clear())", "ShardedMap::clear is called from %s" % sorted(callers))
 
 
 def check_C08(rep, fl):
